@@ -36,6 +36,9 @@ def handle (st : St) (line : String) : St × String :=
   | "lex" :: id :: lang :: _ => (st, id ++ "\t" ++ Lex.runLex lang.toNat! [])
   | "v1tok" :: id :: hx :: _ => (st, id ++ "\t" ++ V1.runV1Tok (unhex hx))
   | "v1tok" :: id :: _ => (st, id ++ "\t" ++ V1.runV1Tok [])
+  | "v1exact" :: id :: u :: v :: _ => (st, id ++ "\t" ++ V1.runV1Exact (unhex u) (unhex v))
+  | "v1post" :: id :: f :: _ => (st, id ++ "\t" ++ V1.runV1Post f)
+  | "v1post" :: id :: _ => (st, id ++ "\t" ++ V1.runV1Post "")
   | "clean" :: id :: hx :: _ => (st, id ++ "\t" ++ Path.runClean hx)
   | "clean" :: id :: _ => (st, id ++ "\t" ++ Path.runClean "")
   | "rel" :: id :: a :: b :: _ => (st, id ++ "\t" ++ Path.runRel a b)
